@@ -8,6 +8,7 @@ import (
 	"os"
 	"os/exec"
 	"path/filepath"
+	"regexp"
 	"sort"
 	"strconv"
 	"strings"
@@ -28,9 +29,13 @@ import (
 // ---------------------------------------------------------------------------------------------
 // scenarios
 
+// noVer marks "no version" in pub/target/con. Versions are carried as the int64 bit pattern of the
+// uint64 version (so that 2^63..2^64-1 fit); the sentinel is a pattern no scenario uses.
+const noVer = int64(-0x7ffffffffffffff0)
+
 type pub struct {
 	Obj   string
-	Ver   int64 // -1: ProduceArgs.Version == nil (timestamp of the virtual clock)
+	Ver   int64 // noVer: ProduceArgs.Version == nil (timestamp of the virtual clock)
 	L     int
 	Cuts  []int // buffer boundaries: byte offsets, ascending; 0 and L give empty buffers
 	Slack int   // spare capacity of the enc.Name slice handed to Produce
@@ -40,14 +45,14 @@ type pub struct {
 type target struct {
 	Obj    string
 	Meta   bool
-	Ver    int64 // -1: no version component
+	Ver    int64 // noVer: no version component
 	Seg    int   // -1: no segment component
 	Prefix bool
 }
 
 type con struct {
 	Obj   string
-	Ver   int64 // -1: ask for the object name (metadata discovery)
+	Ver   int64 // noVer: ask for the object name (metadata discovery)
 	Slack int
 }
 
@@ -60,14 +65,41 @@ type scenario struct {
 	Perm  bool     // permutation mode: only delivery order is explored, client runs canonically
 	// client reuse: consumers issued one after the other ON THE SAME CLIENT, each when the previous
 	// ones have completed and nothing is pending or queued any more
-	Seq    []con
-	Window int // >0: fetch window of the consumer client set through hook VerifSetWindow (scaled)
+	Seq    []step
+	Cache  bool // the network has an in-path content store honouring FreshnessPeriod / MustBeFresh
+	Window int  // >0: fetch window of the consumer client set through hook VerifSetWindow (scaled)
+}
+
+// step is one element of a scenario's sequential part: a Consume, a Produce or a clock advance,
+// each executed when everything before it has completed and the network is quiet.
+type step struct {
+	C *con
+	P *pub
+	T time.Duration
+}
+
+func (x step) String() string {
+	switch {
+	case x.C != nil:
+		return x.C.String()
+	case x.P != nil:
+		return x.P.String()
+	}
+	return fmt.Sprintf("T(%v)", x.T)
+}
+
+func seq(cs ...con) []step {
+	var out []step
+	for i := range cs {
+		out = append(out, step{C: &cs[i]})
+	}
+	return out
 }
 
 func (p pub) String() string {
 	v := "ts"
-	if p.Ver >= 0 {
-		v = fmt.Sprint(p.Ver)
+	if p.Ver != noVer {
+		v = fmt.Sprint(uint64(p.Ver))
 	}
 	s := fmt.Sprintf("P(%s v%s L%d", p.Obj, v, p.L)
 	if len(p.Cuts) > 0 {
@@ -87,7 +119,7 @@ func (t target) name() enc.Name {
 	if t.Meta {
 		n = append(n, enc.NewStringComponent(enc.TypeKeywordNameComponent, "metadata"))
 	}
-	if t.Ver >= 0 {
+	if t.Ver != noVer {
 		n = append(n, enc.NewVersionComponent(uint64(t.Ver)))
 	}
 	if t.Seg >= 0 {
@@ -106,8 +138,8 @@ func (t target) String() string {
 
 func (c con) String() string {
 	s := c.Obj
-	if c.Ver >= 0 {
-		s += fmt.Sprintf("/v=%d", c.Ver)
+	if c.Ver != noVer {
+		s += fmt.Sprintf("/v=%d", uint64(c.Ver))
 	}
 	if c.Slack > 0 {
 		s += fmt.Sprintf(" slack%d", c.Slack)
@@ -132,6 +164,9 @@ func (sc *scenario) String() string {
 	}
 	if sc.Window > 0 {
 		p = append(p, fmt.Sprintf("window%d", sc.Window))
+	}
+	if sc.Cache {
+		p = append(p, "cache")
 	}
 	if len(sc.Dyn) > 0 {
 		p = append(p, fmt.Sprintf("dyn%d", len(sc.Dyn)))
@@ -205,7 +240,8 @@ type inst struct {
 	nonces     map[string]bool // (name, nonce) of every Interest the network carried
 	lost       map[string]int  // Interest name -> timeouts of transmissions the network did carry (genuine losses)
 	seqNext    int
-	nonceDrops int // Interests dropped by the network as duplicates (same name and nonce)
+	cs         map[string]*csEnt // in-path content store (scenario.Cache)
+	nonceDrops int               // Interests dropped by the network as duplicates (same name and nonce)
 	dynUsed    []bool
 	dynLog     []string
 	devUsed    int
@@ -345,6 +381,7 @@ func (in *inst) setup(sc *scenario) {
 		in.cons.VerifSetWindow(sc.Window)
 	}
 	in.dynUsed = make([]bool, len(sc.Dyn))
+	in.cs = map[string]*csEnt{}
 	for _, p := range sc.Pubs {
 		in.produce(p)
 	}
@@ -365,7 +402,7 @@ func (in *inst) produce(p pub) {
 	}
 	var vp *uint64
 	ver := uint64(vtime.Now().UnixNano())
-	if p.Ver >= 0 {
+	if p.Ver != noVer {
 		ver = uint64(p.Ver)
 		vp = &ver
 	}
@@ -487,7 +524,7 @@ func (in *inst) consume(c con) {
 	rec := &consumeRec{tgt: c}
 	in.recs = append(in.recs, rec)
 	n := mkName(c.Obj, c.Slack+1)
-	if c.Ver >= 0 {
+	if c.Ver != noVer {
 		n = append(n, enc.NewVersionComponent(uint64(c.Ver))) // stays within the capacity: slack is what is left after it
 		rec.expKnown, rec.expVer = true, uint64(c.Ver)
 	} else {
@@ -590,10 +627,18 @@ func (in *inst) answer(r *request) {
 	if err != nil {
 		panic(fmt.Sprintf("Interest %s expressed by the client does not parse: %v", r.nameS, err))
 	}
-	in.probePrefix(r, interest)
 	var reply []byte
 	replies := 0
-	if in.pe.handler != nil {
+	fromCache := false
+	if in.sc.Cache {
+		if reply = in.csLookup(r, interest); reply != nil {
+			fromCache = true
+		}
+	}
+	if !fromCache {
+		in.probePrefix(r, interest)
+	}
+	if in.pe.handler != nil && !fromCache {
 		dl := vtime.Now().Add(4 * time.Second)
 		if lt := interest.Lifetime(); lt != nil {
 			dl = vtime.Now().Add(*lt)
@@ -604,7 +649,17 @@ func (in *inst) answer(r *request) {
 	if replies > 1 {
 		in.bad("C15.once", "producer replies more than once to one Interest", fmt.Sprintf("%d replies to %s", replies, r.nameS))
 	}
-	dn := in.checkReply(r, interest, reply)
+	var dn enc.Name
+	if fromCache {
+		if d, _, err := (spec.Spec{}).ReadData(enc.NewBufferReader(reply)); err == nil {
+			dn = d.Name().Clone()
+		}
+	} else {
+		dn = in.checkReply(r, interest, reply)
+		if in.sc.Cache && reply != nil && dn != nil {
+			in.csInsert(reply)
+		}
+	}
 	if reply == nil || dn == nil {
 		in.gcNet()
 		return
@@ -623,7 +678,7 @@ func (in *inst) answer(r *request) {
 			if rp := in.ref[dn.String()]; p.cbp && rp != nil {
 				// a metadata answer fixes the version this consumer is going to fetch
 				for _, rec := range in.recs {
-					if rec.tgt.Ver >= 0 || rec.expKnown {
+					if rec.tgt.Ver != noVer || rec.expKnown {
 						continue
 					}
 					mp := append(mkName(rec.tgt.Obj, 0), enc.NewStringComponent(enc.TypeKeywordNameComponent, "metadata"))
@@ -670,6 +725,63 @@ func (in *inst) probePrefix(r *request, interest ndn.Interest) {
 			in.checkReply(r, interest, w)
 		}
 	}
+}
+
+// csEnt is one entry of the in-path content store.
+type csEnt struct {
+	name enc.Name
+	wire []byte
+	exp  time.Time // insertion time + FreshnessPeriod
+}
+
+// csLookup models a forwarder's content store in front of the consumer: an Interest is answered
+// from it when a cached Data matches (exact name, or any name under a CanBePrefix Interest) and,
+// for MustBeFresh Interests, is still within its FreshnessPeriod; other Interests are answered by
+// stale entries too. Among several matches it returns the one with the smallest name (a real store
+// may return any; the oracle does not depend on the choice). Serving FRESH data is legal whatever
+// its version. Serving STALE metadata of a version older than the newest published one is how a
+// consumer whose metadata Interest lacks MustBeFresh ends up with an old version: C15.newest.
+func (in *inst) csLookup(r *request, interest ndn.Interest) []byte {
+	var best *csEnt
+	for _, e := range in.cs {
+		if !(e.name.Equal(r.name) || (r.cbp && r.name.IsPrefix(e.name))) {
+			continue
+		}
+		if interest.MustBeFresh() && !vtime.Now().Before(e.exp) {
+			continue
+		}
+		if best == nil || e.name.Compare(best.name) < 0 {
+			best = e
+		}
+	}
+	if best == nil {
+		return nil
+	}
+	if r.cbp && !vtime.Now().Before(best.exp) {
+		var newest *refPkt
+		for _, p := range in.ref {
+			if r.name.IsPrefix(p.name) && (newest == nil || p.ver > newest.ver) {
+				newest = p
+			}
+		}
+		if cur := in.ref[best.name.String()]; newest != nil && (cur == nil || cur.ver < newest.ver) {
+			in.bad("C15.newest", "consumer is served an older version from a cache: its metadata Interest does not ask for fresh data", fmt.Sprintf("Interest %s (MustBeFresh=%v) answered by the in-path content store with %s, cached %v ago beyond its freshness period, while %s is published", r.nameS, interest.MustBeFresh(), best.name, vtime.Now().Sub(best.exp), newest.name))
+		}
+	}
+	return best.wire
+}
+
+func (in *inst) csInsert(wire []byte) {
+	d, _, err := spec.Spec{}.ReadData(enc.NewBufferReader(wire))
+	if err != nil {
+		return
+	}
+	fp := time.Duration(0)
+	if f := d.Freshness(); f != nil {
+		fp = *f
+	}
+	n := d.Name().Clone()
+	in.cs[n.String()] = &csEnt{name: n, wire: wire, exp: vtime.Now().Add(fp)}
 }
 
 // checkReply is the producer-side oracle: what the producer's handler answered to an Interest,
@@ -943,7 +1055,7 @@ func (in *inst) defaultOp() string {
 				return "" // an earlier fetch is stuck: reported by final()
 			}
 		}
-		return fmt.Sprintf("Consume@%d %s", in.seqNext, in.sc.Seq[in.seqNext])
+		return fmt.Sprintf("Next@%d %s", in.seqNext, in.sc.Seq[in.seqNext])
 	}
 	return ""
 }
@@ -1066,10 +1178,17 @@ func (in *inst) one(name string) {
 		in.fatalResult(in.net[idx(name)], ndn.InterestResultNack)
 	case strings.HasPrefix(name, "Err#"):
 		in.fatalResult(in.net[idx(name)], ndn.InterestResultError)
-	case strings.HasPrefix(name, "Consume@"):
-		c := in.sc.Seq[in.seqNext]
+	case strings.HasPrefix(name, "Next@"):
+		x := in.sc.Seq[in.seqNext]
 		in.seqNext++
-		in.consume(c)
+		switch {
+		case x.C != nil:
+			in.consume(*x.C)
+		case x.P != nil:
+			in.produce(*x.P)
+		default:
+			vtime.Advance(x.T)
+		}
 	case strings.HasPrefix(name, "Remove@"):
 		k, _ := strconv.Atoi(name[len("Remove@"):strings.IndexByte(name, '(')])
 		in.dynUsed[k] = true
@@ -1149,8 +1268,17 @@ func (in *inst) do(op explore.Op) {
 	}
 }
 
+var digits = regexp.MustCompile(`[0-9]+`)
+
 func (s *sys) Apply(i any, op explore.Op) []report.Violation {
 	in := i.(*inst)
+	// one root cause, one key: the numbers in a runtime error (index, length, capacity) vary with
+	// the scenario; the explorer keys a panic by its message and innermost repository frames
+	defer func() {
+		if r := recover(); r != nil {
+			panic(digits.ReplaceAllString(fmt.Sprint(r), "N"))
+		}
+	}()
 	in.do(op)
 	return in.takeViol()
 }
@@ -1174,6 +1302,14 @@ func (s *sys) Canon(i any) string {
 	fmt.Fprintf(&b, "|dyn%v|t+%d|seq%d|", in.dynLog, vtime.Now().Sub(vtime.Epoch), in.seqNext)
 	for _, r := range in.recs {
 		fmt.Fprintf(&b, "rec{%d %d %v %d %v %d}", r.calls, r.completed, r.err != nil, len(r.got), r.expKnown, r.expVer)
+	}
+	if len(in.cs) > 0 {
+		ck := make([]string, 0, len(in.cs))
+		for k, e := range in.cs {
+			ck = append(ck, fmt.Sprintf("%s@%d", k, e.exp.Sub(vtime.Now())))
+		}
+		sort.Strings(ck)
+		fmt.Fprintf(&b, "cs%v", ck)
 	}
 	keys := make([]string, 0, len(in.timeouts))
 	for k := range in.timeouts {
